@@ -1,9 +1,9 @@
 (* C11 -- classical (direct) interpolation satisfies its defining equations.  Property
    theorems about the model of rs_direct_interpolation_pass2, over any field
    ([is_field], see C09) and for EVERY splitting and strength pattern. *)
-From Coq Require Import ZArith List Bool Field.
+From Coq Require Import ZArith List Bool Field QArith.
 Import ListNotations.
-Require Import PV.Base.Ops PV.Model.Interp PV.Proofs.RelaxProofs PV.Proofs.InterpProofs.
+Require Import PV.Base.Ops PV.Model.Interp PV.Proofs.RelaxProofs PV.Proofs.InterpProofs PV.Proofs.ClassicalProofs.
 
 (* a coarse point gets an identity row (one entry, value 1, at its coarse index) *)
 Theorem C11_direct_C_identity : forall F (o : Ops F) Ap Aj Ax Sp Sj Sx spl i,
@@ -40,3 +40,51 @@ Proof.
   exact (direct_rowsum_one F z0 o1 ad ml sb op dv inv ab eq le lt Fth Heq).
 Qed.
 Print Assumptions C11_direct_rowsum_one.
+
+(* ---- standard classical interpolation (rs_classical_interpolation_pass2) ---- *)
+(* C rows are identity rows, for both variants (modified or not) *)
+Theorem C11_classical_C_identity : forall F (o : Ops F) Ap Aj Ax Sp Sj Sx spl eps15 modified i,
+  isC spl i = true -> classical_row o Ap Aj Ax Sp Sj Sx spl eps15 modified i = [(cmap spl i, one o)].
+Proof.
+  intros F [z0 o1 ad sb ml dv op ab eq le lt].
+  exact (classical_C_identity F z0 o1 ad ml sb op dv ab eq le lt).
+Qed.
+Print Assumptions C11_classical_C_identity.
+(* F rows carry one weight per strongly connected C point and nothing else, for both variants *)
+Theorem C11_classical_F_support : forall F (o : Ops F) Ap Aj Ax Sp Sj Sx spl eps15 modified i,
+  isC spl i = false ->
+  map fst (classical_row o Ap Aj Ax Sp Sj Sx spl eps15 modified i) =
+  map (fun jj => cmap spl (gz Sj jj)) (filter (fun jj => isC spl (gz Sj jj)) (srange Sp i)).
+Proof.
+  intros F [z0 o1 ad sb ml dv op ab eq le lt].
+  exact (classical_F_support F z0 o1 ad ml sb op dv ab eq le lt).
+Qed.
+Print Assumptions C11_classical_F_support.
+(* standard variant, F row i with zero row sum: if every strongly connected node is a C or an F point, every
+   strongly connected F point k has a nonzero sum of row k over the interpolatory set C_i, and the 1e-15 filter drops
+   no nonzero entry a_kj, then the weights of row i sum to one: constants are interpolated exactly *)
+Theorem C11_classical_rowsum_one : forall F (o : Ops F) inv, is_field o inv ->
+  forall Ap Aj Ax Sp Sj Sx spl eps15 i, isC spl i = false ->
+  (forall mm, In mm (srange Sp i) -> isF spl (gz Sj mm) = negb (isC spl (gz Sj mm))) ->
+  (forall kk, In kk (srange Sp i) -> cl_isFk Sj spl i kk = true -> cl_inner o Ap Aj Ax Sp Sj spl i kk <> zero o) ->
+  (forall kk jj, In kk (srange Sp i) -> cl_isFk Sj spl i kk = true -> In jj (cl_Cs Sp Sj spl i) ->
+     ltb o (mul o eps15 (abs o (gf o Sx kk))) (abs o (find_first o Ap Aj Ax (gz Sj kk) (gz Sj jj))) = true \/
+     find_first o Ap Aj Ax (gz Sj kk) (gz Sj jj) = zero o) ->
+  cl_rowsum o Ap Ax i = zero o ->
+  cl_strong_offdiag o Sp Sj Sx i <> zero o ->
+  osm o snd (classical_row o Ap Aj Ax Sp Sj Sx spl eps15 false i) = one o.
+Proof.
+  intros F [z0 o1 ad sb ml dv op ab eq le lt] inv [Fth _].
+  exact (classical_rowsum_one F z0 o1 ad ml sb op dv inv ab eq le lt Fth).
+Qed.
+Print Assumptions C11_classical_rowsum_one.
+(* non-vacuity: the graph Laplacian of K4 (diagonal 3, off-diagonals -1, S = A), splitting C F F C, row 1: zero row
+   sum, strong off-diagonal sum -3, the F neighbour 2 has inner sum -2, and the model returns the weights 1/2, 1/2 *)
+Definition ex_Ap := [0;4;8;12;16]%Z.
+Definition ex_Aj := [0;1;2;3; 0;1;2;3; 0;1;2;3; 0;1;2;3]%Z.
+Definition ex_Ax : list Q := [3#1;-1#1;-1#1;-1#1; -1#1;3#1;-1#1;-1#1; -1#1;-1#1;3#1;-1#1; -1#1;-1#1;-1#1;3#1].
+Example C11_classical_example :
+  classical_row opsQ ex_Ap ex_Aj ex_Ax ex_Ap ex_Aj ex_Ax [1;0;0;1]%Z (1#1000000000000000) false 1%Z = [(0%Z, 1#2); (1%Z, 1#2)]
+  /\ cl_rowsum opsQ ex_Ap ex_Ax 1 = 0%Q /\ cl_strong_offdiag opsQ ex_Ap ex_Aj ex_Ax 1 = (-3)%Q
+  /\ cl_inner opsQ ex_Ap ex_Aj ex_Ax ex_Ap ex_Aj [1;0;0;1]%Z 1 6 = (-2)%Q.
+Proof. vm_compute. repeat split; reflexivity. Qed.
